@@ -332,6 +332,14 @@ class ObjectHistories(Family):
         for seq in itertools.product((True, False), repeat=3):
             for si in range(3):
                 yield ('compression_sequence', list(seq), si)
+        # public-key objects that are NOT curve points stay alive while valid ones are built and used, in every order of
+        # up to four constructions (I = invalid, V = valid): an invalid object never verifies anything afterwards
+        for comp in (True, False):
+            for bad in ('offcurve', 'nosqrt', 'prefix', 'short', 'empty'):
+                for ln in (2, 3, 4):
+                    for seq in itertools.product('IV', repeat=ln):
+                        if 'I' in seq and 'V' in seq:
+                            yield ('invalid_and_valid_objects_alive', [bad, ''.join(seq)], comp)
         for ch_seq in itertools.permutations(C.CHAINS, 2):
             yield ('wif_across_chains', list(ch_seq), 0)
 
@@ -446,6 +454,39 @@ class ObjectHistories(Family):
                     raise Viol('a valid public key built right after a refused signature (%s) is reported invalid' % a[0], True, False)
                 if not pub.verify(h, EC.der_encode(r, s_)) or not pub.is_fullyvalid:
                     raise Viol('a valid signature checked right after a refused one (%s) is rejected' % a[0], True, False)
+            return kind, True
+        if kind == 'invalid_and_valid_objects_alive':
+            bad, seq = a
+            objs = []
+            nv = 0
+            for step, c in enumerate(seq):
+                if c == 'V':
+                    sec = K.SECRETS[7 + nv]
+                    nv += 1
+                    raw = EC.pubkey(sec, b)
+                    sig = EC.der_encode(*EC.low_s(*EC.sign_with_nonce(sec, h, 4800 + nv)))
+                    objs.append((CPubKey(raw), raw, True, sig))
+                else:
+                    good = EC.pubkey(K.SECRETS[12 + step], False)
+                    x = grid_x()
+                    raw = {'offcurve': good[:33] + ((int.from_bytes(good[33:], 'big') + 1) % EC.P).to_bytes(32, 'big'),
+                           'nosqrt': (b'\x02' + x['nosqrt'].to_bytes(32, 'big')) if b else (b'\x04' + x['nosqrt'].to_bytes(32, 'big') + good[33:]),
+                           'prefix': b'\x05' + EC.pubkey(K.SECRETS[12 + step], True)[1:],
+                           'short': EC.pubkey(K.SECRETS[12 + step], b)[:-1],
+                           'empty': b''}[bad]
+                    if EC.decode_point(raw) is not None:
+                        raise AssertionError('harness: %s is a curve point' % raw.hex())
+                    objs.append((CPubKey(raw), raw, False, None))
+                # after every construction: every object alive answers for its own bytes only
+                for i, (pk, raw_i, valid, sig_i) in enumerate(objs):
+                    if bytes(pk) != raw_i or bool(pk.is_fullyvalid) != valid:
+                        raise Viol('public-key object #%d of construction sequence %s (%s) changed after step %d' % (i, seq, bad, step), (raw_i.hex()[:20], valid), (bytes(pk).hex()[:20], pk.is_fullyvalid))
+                    for j, (_, _, _, sig_j) in enumerate(objs):
+                        if sig_j is None:
+                            continue
+                        got = bool(pk.verify(h, sig_j))
+                        if got != (valid and i == j):
+                            raise Viol('construction sequence %s (%s key): after step %d object #%d (%s) %s the signature made for object #%d' % (seq, bad, step, i, 'valid' if valid else 'not a curve point', 'accepts' if got else 'rejects', j), valid and i == j, got)
             return kind, True
         if kind == 'compression_sequence':
             sec = K.SECRETS[b]
